@@ -47,12 +47,15 @@ def build(tier: str) -> List[Cond]:
                 for tps in [()] + [(p,) for p in range(tl)]:
                     if tier == "quick" and tl == 4 and tps and tps[0] % 2:
                         continue
-                    shape = dict(ntp=len(tps), **{f"tp{i}": v for i, v in enumerate(tps)})
-                    conds.append(Cond(oid=f"coverage/t={tl}/q={ql}/tmods={','.join(map(str, tps)) or '-'}", clause="coverage marks/counts exactly the covered positions; percent coverage is the marked fraction",
-                                      module="vf.h.c16", func="o_coverage", shape=shape,
-                                      sym=[("tseq", "str"), ("q1", "str"), ("q2", "str"), ("accumulate", "bool"), ("ignore_mods", "bool")],
-                                      pre=_str_pre("tseq", tl) + _str_pre("q1", ql) + _str_pre("q2", (2 if tier == "thorough" else 1) if tl <= 3 else 0, exact=False), timeout=t, functions=FUNCS,
-                                      bounds=f"target {tl}, first query {ql}, second query <=1/2 (may be empty = absent)"))
+                    for qform in ("plain", "modstr", "modann"):
+                        if qform != "plain" and tier == "quick" and (tl > 3 or (qform == "modann" and tps and tps[0] != 0)):
+                            continue
+                        shape = dict(ntp=len(tps), qform=qform, **{f"tp{i}": v for i, v in enumerate(tps)})
+                        conds.append(Cond(oid=f"coverage/t={tl}/q={ql}/tmods={','.join(map(str, tps)) or '-'}" + ("" if qform == "plain" else "/" + qform), clause="coverage marks/counts exactly the covered positions; percent coverage is the marked fraction",
+                                          module="vf.h.c16", func="o_coverage", shape=shape,
+                                          sym=[("tseq", "str"), ("q1", "str"), ("q2", "str"), ("accumulate", "bool"), ("ignore_mods", "bool")],
+                                          pre=_str_pre("tseq", tl) + _str_pre("q1", ql) + _str_pre("q2", (2 if tier == "thorough" else 1) if tl <= 3 else 0, exact=False), timeout=t, functions=FUNCS,
+                                          bounds=f"target {tl}, first query {ql} ({qform}: plain residues / ProForma string with a modification / annotation object), second query <=1/2 (may be empty = absent)"))
     return conds
 
 
